@@ -61,8 +61,8 @@ def main(argv):
         return 0
     pid = argv[0].upper()
     only = set(argv[1:])
-    with open(os.path.join(VERIF, 'vt', 'mutants.json')) as f:
-        mutants = [m for m in json.load(f) if m['pid'] == pid and (not only or m['id'] in only)]
+    with open(os.path.join(VERIF, 'vt', 'mutants', pid.lower() + '.json')) as f:
+        mutants = [m for m in json.load(f) if (not only or m['id'] in only)]
     results = []
     for m in mutants:
         d = scratch_copy()
